@@ -1081,7 +1081,9 @@ def parse(
             conn.commit()
         try:
             tree = pickle.loads(pickled_data)
-        except pickle.UnpicklingError:
+        except Exception:
+            # pickle.loads can raise far more than UnpicklingError on a damaged or
+            # foreign entry (EOFError, AttributeError, ImportError, IndexError, ...)
             logger.warning(f"Model with hash '{txt_hash}' ({pymoca_version}) failed to unpickle")
     else:
         logger.debug(f"Model with hash '{txt_hash}' ({pymoca_version}) not in cache")
